@@ -35,6 +35,10 @@ CRASH = dict(pkg="./cache/disk", test="TestVerifCrash", name="crash", diff=False
 
 SCHED = dict(pkg="./cache/disk", test="TestVerifSchedules", name="sched", diff=True, race=True, also=["C07", "C03"])
 
+SRVHARD = dict(pkg="./server", test="TestVerifServerHardLimit", name="srvhard", diff=False)
+
+GRPCPROXY = dict(pkg="./cache/grpcproxy", test="TestVerifGrpcProxyRoundTrip", name="grpcproxy", diff=False)
+
 COMMON_TB = [
     "goroutine scheduling, sync.Mutex and the file system are modelled (atomic lock regions, process-visible file state), not verified",
 ]
@@ -53,8 +57,8 @@ PROPS = {
         level_text="Theorems on M1: evicted entries are a least-recently-used suffix, no eviction when the item fits, minimal eviction, move-to-front on hits, oversize rejection leaves the state unchanged.",
         level_note=NOTE + "sequential histories.", technique=TECH),
     "C17": dict(
-        lean="BR.Props.C17", runs=[LRU, DISK], trusted_base=COMMON_TB, assumptions=[],
-        level_text="Theorems on M1's Reserve: refusal iff current + backlog + size exceeds the hard limit, refusal leaves the state unchanged, retry succeeds after the backlog drained, no refusal when the option is off.",
+        lean="BR.Props.C17", runs=[LRU, DISK, SRVHARD], trusted_base=COMMON_TB, assumptions=[],
+        level_text="Theorems on M1's Reserve: refusal iff current + backlog + size exceeds the hard limit, refusal leaves the state unchanged, retry succeeds after the backlog drained, no refusal when the option is off. Server-level oracle: with the cache filled to the limit every write path (HTTP, BatchUpdateBlobs, ByteStream.Write, UpdateActionResult with inlined blobs, FetchBlob; both storage modes) answers 507 / RESOURCE_EXHAUSTED, stores and evicts nothing, reads keep working.",
         level_note=NOTE + "the uint64 sum is modelled exactly.", technique=TECH),
     "C02": dict(
         lean="BR.Props.C02", runs=[BLOB, BLOBREAL, DISK], trusted_base=COMMON_TB + [
@@ -76,7 +80,7 @@ PROPS = {
         level_text="Invariant on M4 proved for every sequential history with failures injected at every stage: the regular files are exactly the files of indexed entries plus those queued for removal, each with the recorded length; after draining, directory = index.",
         level_note=NOTE + "concurrent histories via the atomic-lock-region assumption (C07).", technique=TECH),
     "C12": dict(
-        lean="BR.Props.C12", runs=[DISK], trusted_base=COMMON_TB + ["transport code of the concrete back ends (net/http, grpc, minio, azure SDK) is not modelled"],
+        lean="BR.Props.C12", runs=[DISK, GRPCPROXY], trusted_base=COMMON_TB + ["transport code of the concrete back ends (net/http, grpc, minio, azure SDK) is not modelled"],
         assumptions=["the back end is trusted for content it completely delivers"],
         level_text="Theorems on M4's proxy read-through: a hit carries exactly the back end's bytes with the announced size; every fault (error, not found, short/long stream, wrong or unknown size, oversize) yields a miss or an error, stores nothing and releases the reservation; each accepted upload is forwarded once.",
         level_note=NOTE + "partial: back-end transport libraries outside the model.", technique=TECH),
